@@ -185,64 +185,117 @@ func (c *Ctx) DomainRules(prop string) {
 	appr, all := c.approvalSites(rule1, s, s.Sign, false)
 	_ = all
 	c.R.Floor(rule1, "APPROVED origins of the generic rule", len(appr), 1)
+	isSignRoot := func(f *ssa.Function) bool { return f == s.Sign }
+	nExit := 0
 	for _, o := range appr {
 		site := o.Site
 		for _, g := range []string{"DomainBeaconAttester", "DomainBeaconProposer"} {
 			g := g
-			x, path := an.Cut(an.CutQuery{From: an.Entry(o.Fn), Target: func(i ssa.Instruction) bool { return i == site },
-				AcceptEdge: c.WithSummaries(func(a *an.Atom, sub Subst) bool { return domainAtomS(a, sub, g, false) })})
+			// the deny tests may sit in any frame of the call chain from the generic rule to the APPROVED origin
+			okCut, wit := c.InterCut(o.Fn, site, isSignRoot, func(a *an.Atom, sub Subst) bool { return domainAtomS(a, sub, g, false) })
 			want := "every path to APPROVED in the generic rule passes [domain[0:4] != " + g + "]"
-			if x != nil {
-				c.R.Fail(rule1, Fn(o.Fn)+":"+g, c.Pos(site), "the generic signing rule can approve a request whose domain type is "+g+" (a slashable message signed without its slashing rule)", want, an.PathString(c.Pos, path))
+			if !okCut {
+				c.R.Fail(rule1, Fn(o.Fn)+":"+g, c.Pos(site), "the generic signing rule can approve a request whose domain type is "+g+" (a slashable message signed without its slashing rule)", want, wit)
 			} else {
 				c.R.OK(rule1, Fn(o.Fn)+":"+g, c.Pos(site), want)
 			}
 		}
 		// ---- O2 generic.exit
 		rule2 := "C05.O2 generic.exit"
-		F := o.Fn
-		// edges on which the domain is the voluntary-exit type
-		nExit := 0
-		for _, b := range F.Blocks {
-			for i := range b.Succs {
-				if !domainAtom(an.EdgeAtom(b, i), "DomainVoluntaryExit", true) {
-					continue
+		ipNonEmpty := func(a *an.Atom, sub Subst) bool {
+			if a == nil || a.Op != "!=" {
+				return false
+			}
+			l, r := sub.Res(a.LV), sub.Res(a.RV)
+			return (isMetaIP(l) && isEmptyString(r)) || (isMetaIP(r) && isEmptyString(l))
+		}
+		adminMatch := func(a *an.Atom, sub Subst) bool {
+			if a == nil {
+				return false
+			}
+			if isAdminIPEq(resolveAtom(a, sub)) {
+				return true
+			}
+			if a.Op != "true" {
+				return false
+			}
+			if phi, ok := a.LV.(*ssa.Phi); ok && c.isAdminIPFlag(phi.Parent(), phi) {
+				return true
+			}
+			// slices.Contains(<receiver>.adminIPs, metadata.IP)
+			if call, ok := sub.Res(a.LV).(*ssa.Call); ok && call.Call.StaticCallee() != nil && len(call.Call.Args) == 2 {
+				f := call.Call.StaticCallee()
+				if f.Origin() != nil {
+					f = f.Origin()
 				}
-				nExit++
-				from := an.Point{Block: b.Succs[i], Idx: 0}
-				// (i) source address non-empty
-				x, path := an.Cut(an.CutQuery{From: from, Target: func(ins ssa.Instruction) bool { return ins == site },
-					AcceptEdge: func(b *ssa.BasicBlock, i int, a *an.Atom) bool {
-						if a == nil || a.Op != "!=" {
-							return false
-						}
-						return (isMetaIP(a.LV) && isEmptyString(a.RV)) || (isMetaIP(a.RV) && isEmptyString(a.LV))
-					}})
-				if x != nil {
-					c.R.Fail(rule2, Fn(F)+":ip-nonempty", c.Pos(site), "a voluntary-exit request without a source address can be approved", "exit domain => [metadata.IP != \"\"] before APPROVED", an.PathString(c.Pos, path))
-				} else {
-					c.R.OK(rule2, Fn(F)+":ip-nonempty", c.Pos(site), "exit domain => [metadata.IP != \"\"] before APPROVED")
+				if f.Pkg != nil && f.Pkg.Pkg.Path() == "slices" && f.Name() == "Contains" {
+					owner, fld, _ := an.FieldOf(sub.Res(call.Call.Args[0]))
+					_, isSl := call.Call.Args[0].Type().(*types.Slice)
+					if owner != nil && isSl && strings.Contains(strings.ToLower(fld), "ip") && isMetaIP(sub.Res(call.Call.Args[1])) {
+						return true
+					}
 				}
-				// (ii) flag true, and the flag becomes true only below metadata.IP == adminIPs[i]
-				x, path = an.Cut(an.CutQuery{From: from, Target: func(ins ssa.Instruction) bool { return ins == site },
-					AcceptEdge: c.WithSummaries(func(a *an.Atom, sub Subst) bool {
-						if a == nil {
-							return false
+			}
+			return false
+		}
+		// every path to the approval decides whether the request is a voluntary exit
+		if okT, wit := c.InterCut(o.Fn, site, isSignRoot, func(a *an.Atom, sub Subst) bool {
+			return domainAtomS(a, sub, "DomainVoluntaryExit", true) || domainAtomS(a, sub, "DomainVoluntaryExit", false)
+		}); !okT {
+			c.R.Fail(rule2, Fn(o.Fn)+":exit-tested", c.Pos(site), "the generic rule can approve without having tested whether the domain is the voluntary-exit type", "every path to APPROVED passes the voluntary-exit test", wit)
+		} else {
+			c.R.OK(rule2, Fn(o.Fn)+":exit-tested", c.Pos(site), "every path to APPROVED passes the voluntary-exit test (either outcome)")
+		}
+		// edges of the generic rule on which the domain is the voluntary-exit type; the approval (or the call leading to it) below
+		for _, ch := range c.Chains(o.Fn, site, isSignRoot, 4) {
+			if !isSignRoot(ch[0].Fn) {
+				continue
+			}
+			F := ch[0].Fn
+			target0 := ch[0].Target
+			for _, b := range F.Blocks {
+				for i := range b.Succs {
+					if !domainAtom(an.EdgeAtom(b, i), "DomainVoluntaryExit", true) {
+						continue
+					}
+					from := an.Point{Block: b.Succs[i], Idx: 0}
+					if !an.Reachable(from, target0) {
+						continue
+					}
+					nExit++
+					cutBy := func(pred AtomPred) ([]string, bool) {
+						x, path := an.Cut(an.CutQuery{From: from, Target: func(ins ssa.Instruction) bool { return ins == target0 },
+							AcceptEdge: c.WithSummariesFrom(ch[0].Sub, pred)})
+						if x == nil {
+							return nil, true
 						}
-						if isAdminIPEq(resolveAtom(a, sub)) {
-							return true
+						for k := 1; k < len(ch); k++ {
+							tk := ch[k].Target
+							if y, _ := an.Cut(an.CutQuery{From: an.Entry(ch[k].Fn), Target: func(ins ssa.Instruction) bool { return ins == tk },
+								AcceptEdge: c.WithSummariesFrom(ch[k].Sub, pred)}); y == nil {
+								return nil, true
+							}
 						}
-						return a.Op == "true" && c.isAdminIPFlag(F, a.LV)
-					})})
-				if x != nil {
-					c.R.Fail(rule2, Fn(F)+":admin-ip", c.Pos(site), "a voluntary-exit request can be approved without its source address having matched an entry of the administrator list", "exit domain => [metadata.IP == adminIPs[i]] for some i before APPROVED", an.PathString(c.Pos, path))
-				} else {
-					c.R.OK(rule2, Fn(F)+":admin-ip", c.Pos(site), "exit domain => a flag that is true only below [metadata.IP == adminIPs[i]]")
+						return an.PathString(c.Pos, path), false
+					}
+					key := Fn(o.Fn)
+					// (i) source address non-empty
+					if wit, ok := cutBy(ipNonEmpty); !ok {
+						c.R.Fail(rule2, key+":ip-nonempty", c.Pos(site), "a voluntary-exit request without a source address can be approved", "exit domain => [metadata.IP != \"\"] before APPROVED", wit)
+					} else {
+						c.R.OK(rule2, key+":ip-nonempty", c.Pos(site), "exit domain => [metadata.IP != \"\"] before APPROVED")
+					}
+					// (ii) the source address matched an entry of the administrator list
+					if wit, ok := cutBy(adminMatch); !ok {
+						c.R.Fail(rule2, key+":admin-ip", c.Pos(site), "a voluntary-exit request can be approved without its source address having matched an entry of the administrator list", "exit domain => [metadata.IP == adminIPs[i]] for some i before APPROVED", wit)
+					} else {
+						c.R.OK(rule2, key+":admin-ip", c.Pos(site), "exit domain => the source address matched an entry of the administrator list")
+					}
 				}
 			}
 		}
-		c.R.Floor(rule2, "voluntary-exit domain tests in the generic rule", nExit, 1)
 	}
+	c.R.Floor("C05.O2 generic.exit", "voluntary-exit domain tests in the generic rule", nExit, 1)
 	// ---- O3 / O4 require
 	type req struct {
 		rule   string
